@@ -40,7 +40,7 @@ def octabox(sub=0):
     return dict(bitmap=bitmap, diag=(0, 255, 0, 255), subs=subs)
 
 
-def s_full(version=5, glat_version=3, compress=(), rtl=False, with_collision=True, subboxes=True, glyf=True, extra_attr_glyphs=0, dense_attrs=False):
+def s_full(version=5, glat_version=3, compress=(), rtl=False, with_collision=True, subboxes=True, glyf=True, extra_attr_glyphs=0, dense_attrs=False, line_ends=False):
     names = ['notdef', 'space', 'a', 'b', 'c', 'd', 'x', 'y', 'z', 'acute', 'grave', 'pseudo', 'astral', 'lig', 'e', 'f']
     glyphs = []
     for i, n in enumerate(names):
@@ -88,7 +88,7 @@ def s_full(version=5, glat_version=3, compress=(), rtl=False, with_collision=Tru
         Rule(0, [S('d')], A('PUSH_BYTE', 40, 'ATTR_SET', SLAT['advY'], 'PUSH_BYTE', 0xEC, 'ATTR_SET', SLAT['shiftY'], 'NEXT', 'RET_ZERO'), name='d {adv.y=40; shift.y=-20}'),
     ])
     passes = [p0, p1, p2]
-    flags = 0
+    flags = 1 if line_ends else 0          # bit 0: line-end contextuals (gr_seg_justify adds temporary line-end slots)
     if with_collision and glat_version >= 3:
         passes.append(dict(maxloop=1, flags=1, rules=[]))
         flags |= 0x20
@@ -154,7 +154,7 @@ def write_all(outdir):
     fonts = {'s_min': s_min(), 's_full': s_full(), 's_full_z': s_full(compress=('Silf', 'Glat')), 's_full_v3': s_full(version=3, glat_version=1, with_collision=False),
              's_full_v4': s_full(version=4, glat_version=2, with_collision=False), 's_full_rtl': s_full(rtl=True), 's_full_nosub': s_full(subboxes=False),
              's_full_zs': s_full(compress=('Silf',)), 's_full_zg': s_full(compress=('Glat',)),
-             's_full_noglyf': s_full(glyf=False), 's_full_extra': s_full(extra_attr_glyphs=3), 's_full_dense': s_full(dense_attrs=True)}
+             's_full_noglyf': s_full(glyf=False), 's_full_extra': s_full(extra_attr_glyphs=3), 's_full_dense': s_full(dense_attrs=True), 's_full_le': s_full(line_ends=True), 's_full_rtl_le': s_full(rtl=True, line_ends=True)}
     fonts.update(feat_family())
     index = {}
     for name, spec in fonts.items():
